@@ -19,7 +19,7 @@ RULE = ("programs over broadcast(M0>M1>M2, N) / delay{..} (optionally left by an
         "Non-trivial = nested delay blocks, or an invoked handler whose script re-enters the hub, or a subscription change between "
         "two broadcasts; distinct by spec hash (random) / by construction (enumeration).")
 EXHAUSTIVE = {"quick": "flat token programs of length <=4 over 9 tokens x 8 handler-script variants",
-              "thorough": "flat token programs of length <=6 over 9 tokens x 8 handler-script variants"}
+              "thorough": "flat token programs of length <=5 over 9 tokens x 8 handler-script variants"}
 ASSUMPTIONS = [
     "priorities of different listeners are never equal in generated programs (the statement orders different priorities only)",
     "handlers never raise; a delay block may be left by an exception raised by the program itself",
@@ -468,7 +468,7 @@ def nest_tokens(tokens):
 
 
 def enum_programs(tier):
-    maxlen = 6 if tier == "thorough" else 4
+    maxlen = 5 if tier == "thorough" else 4
     setup = [["sub", "A", "M0", 0, "m", "all", 1], ["sub", "B", "M1", 1, "f", "all", 2], ["sub", "B", "N", 3, "m", "all", 0]]
     for n in range(1, maxlen + 1):
         for toks in itertools.product(TOKENS, repeat=n):
@@ -487,7 +487,7 @@ def enum_programs(tier):
 
 
 def checks(tier):
-    n = {"quick": 6000, "thorough": 400000}.get(tier, 10)
+    n = {"quick": 6000, "thorough": 200000}.get(tier, 10)
     return [
         Check("enum_programs", fn_program, enum=enum_programs, reset=False, count_distinct=False),
         Check("random_programs", fn_program, strategy=programs(), examples=n, reset=False),
